@@ -60,6 +60,15 @@ def run(prop, tier, seed):
             ops2 = [o for o in ops if not (o['op'] == 'setmaxlen')]
             tid += 1
             jobs.append((ops2, maxlen, 'stdlib', 'Deque', seed + i, tid))
+    # histories with transact() blocks (ended or raised, nested), also through collections.deque with saved copies
+    for i in range(20 if tier == 'quick' else 300):
+        maxlen = rng.choice([-1, -1, 2, 3, 5])
+        ops = dequedriver.block_ops(rng, length // 2, maxlen)
+        tid += 1
+        jobs.append((ops, maxlen, 'diskcache', rng.choice(['Deque', 'Deque', 'fanout']), seed + 7000 + i, tid))
+        if i % 3 == 0:
+            tid += 1
+            jobs.append((ops, maxlen, 'stdlib', 'Deque', seed + 7000 + i, tid))
     traces = pmap(_seq, jobs, procs=14)
     # concurrent producers / consumers
     cj_dfs, cj_rand = [], []
